@@ -96,9 +96,16 @@ def rule_I1(ctx) -> None:
             ctx.count(len(ps))
             returns[q] = [p.value for p in ps if p.outcome == "return" and p.value is not None]
     guarded = set()
+
+    def is_guarded(v) -> bool:
+        """a call of the guard (or of a function judged guarded); a list / generator of such calls, one per incoming name"""
+        if v[0] == "call" and v[1] in (N("$listcomp"), N("$genexp")) and len(v[2]) >= 2:
+            return is_guarded(v[2][0])
+        return v[0] == "call" and (dotted(v[1]).split(".")[-1] in ("sanitize_name", "safe_snake_case") or dotted(v[1]) in guarded)
+
     for _ in range(len(returns) + 1):
         for q, vals in returns.items():
-            if vals and all(v[0] == "call" and (dotted(v[1]).split(".")[-1] in ("sanitize_name", "safe_snake_case") or dotted(v[1]) in guarded) for v in vals):
+            if vals and all(is_guarded(v) for v in vals):
                 guarded.add(q)
     for q, fn in nam.functions():
         if not q.startswith("pythonize_"):
@@ -107,7 +114,7 @@ def rule_I1(ctx) -> None:
         ctx.analysed(q)
         bad = []
         for v in returns[q]:
-            if not (v[0] == "call" and (dotted(v[1]).split(".")[-1] in ("sanitize_name", "safe_snake_case") or dotted(v[1]) in guarded)):
+            if not is_guarded(v):
                 bad.append(show(v))
         if bad:
             ctx.refuted("I1", f"{q}:guarded", "unguarded", nam.loc(fn),
@@ -150,6 +157,24 @@ def rule_I2(ctx, rule: str = "I2") -> None:
             bad_anchor = p
         # (b) the remainder was tested for emptiness on this path
         rem_tested = any(val and any(c in list(walk(k)) for c in cuts) and not (k[0] == "call" and k[1][0] == "a" and k[1][2] == "startswith") for k, val in p.valuation.items())
+
+        def falls_back(t) -> bool:
+            """every use of the shortened name in t is an operand of an `or` that ends in something not shortened (`rest or name`)"""
+            if not any(c in list(walk(t)) for c in cuts):
+                return True
+            if t[0] == "op" and t[1] == "or" and not any(c in list(walk(t[-1])) for c in cuts):
+                return True
+            if t in cuts or t[0] in ("c", "n"):
+                return False
+            kids = [x for x in t[1:] if isinstance(x, tuple)]
+            if t[0] == "call":
+                kids = [t[1]] + list(t[2]) + [v_ for _, v_ in t[3]]
+            elif t[0] in ("tuple", "list", "set"):
+                kids = list(t[1])
+            return all(falls_back(k) for k in kids if isinstance(k, tuple) and k and isinstance(k[0], str))
+
+        if not rem_tested and falls_back(v):
+            rem_tested = True
         if not rem_tested:
             bad_empty = p
     uses_find = any(isinstance(n, ast.Call) and isinstance(n.func, ast.Attribute) and n.func.attr in ("find", "index", "rfind", "partition", "split") for n in ast.walk(fn))
@@ -172,7 +197,14 @@ def rule_I2(ctx, rule: str = "I2") -> None:
     ctx.analysed("EnumDefinitionCompiler.__post_init__")
     guard = None
     weak_guard = None
-    for n in ast.walk(ec):
+    # the check may live in a naming helper that is handed all the names of the enum
+    scope = [ec]
+    for c_ in ast.walk(ec):
+        if isinstance(c_, ast.Call) and isinstance(c_.func, ast.Name):
+            for m_ in (mods, nam):
+                if m_.has(c_.func.id) and isinstance(m_.defs[c_.func.id][0], ast.FunctionDef) and m_.func(c_.func.id) not in scope:
+                    scope.append(m_.func(c_.func.id))
+    for n in [x for f_ in scope for x in ast.walk(f_)]:
         if isinstance(n, ast.Compare) and any(isinstance(x, ast.Call) and ast.unparse(x.func) == "len" for x in [n.left] + n.comparators):
             txt = ast.unparse(n)
             if "set(" in txt or "{" in txt or "Counter" in txt:
